@@ -106,4 +106,22 @@ def tally (contribs : List Vec5) : Vec5 := contribs.foldl vadd (0, 0, 0, 0, 0)
 def mapLookup (entries : List (String × Nat)) (k : String) : Option Nat :=
   (entries.find? (fun e => e.1 == k)).map (·.2)
 
+/-! ## `GetSupportChains` and `createBatchFees` + `GetAllBatchFees` (collect from a map, then sort by key) -/
+
+def strLe (a b : String) : Bool := decide (a ≤ b)
+
+/-- `GetSupportChains`: the keys of `externalAddressRouter`, sorted -/
+def sortChains (l : List String) : List String := l.mergeSort strLe
+
+/-- totals the fee map holds for one token: (Σ fee, Σ amount, number of txs) over the pool entries (token, fee, amount) -/
+def tokenTotals (es : List (String × Nat × Nat)) (t : String) : Nat × Nat × Nat :=
+  let mine := es.filter (fun e => e.1 == t)
+  ((mine.map (·.2.1)).sum, (mine.map (·.2.2)).sum, mine.length)
+
+/-- `GetAllBatchFees`: one entry per token of the pool, sorted by token -/
+def allBatchFees (es : List (String × Nat × Nat)) : List (String × Nat × Nat × Nat) :=
+  ((es.map (·.1)).eraseDups.mergeSort strLe).map fun t =>
+    let r := tokenTotals es t
+    (t, r.1, r.2.1, r.2.2)
+
 end FxVerif.Model.C17
